@@ -8,7 +8,6 @@ use crate::{
     eng::{action_name, Engine, F, R},
     gen::{ctx_strategy, rng_strategy, seed_strategy, slot_strategy, some_seed_strategy, SeedSpec, BITS},
     props::c03::{build_member, verify_members, Member, PoolMember},
-    refimpl::{ref_recover, Proof, Stmt},
     runner::{no_fixed, sub, CaseLog, PropertyDef, RunCtx, Sub},
 };
 
@@ -90,21 +89,6 @@ pub fn oracle<E: Engine>(_ctx: &RunCtx, spec: &RecSpec, log: &mut CaseLog) -> Re
                 detail
             ));
         }
-        // reference recovery agrees (seeded members)
-        if let (Some(w), Some(seed)) = (&m.mask, m.st.seed_nonce) {
-            let rst = Stmt {
-                bits,
-                h: m.st.generators.h_base().clone(),
-                g: m.st.generators.g_bases().to_vec(),
-                commitments: m.st.commitments.clone(),
-                promises: m.st.minimum_value_promises.clone(),
-            };
-            let pf = Proof::parse_layout(&m.proof.to_bytes()).map_err(|e| format!("{:?}", e))?;
-            let rr = ref_recover(&mut m.ctx.transcript(), &rst, &pf, &seed).map_err(|e| format!("reference recovery refused: {:?}", e))?;
-            if &rr != w {
-                return Err("reference mask recovery disagrees with the commitment's blinding vector".into());
-            }
-        }
     }
     log.label(format!("engine={}", E::NAME));
     log.label(format!("recover:mode={}", action_name(action)));
@@ -148,8 +132,7 @@ pub fn def() -> PropertyDef {
                (uniform, 0, 1, -1), without a seed, and aggregated members (m = 2, 4), capacities m..4m, per-component blinding classes \
                {uniform, 0, 1, -1} (components distinct), value / promise / context / RNG-model classes, in generated order, verified in \
                RecoverAndVerify, RecoverOnly or VerifyOnly. Oracle: result i == Some(blinding vector of commitment i, all components in order) for \
-               seeded non-aggregated members, None for all others and for every member in VerifyOnly; the reference recovery returns the same \
-               vector. Non-trivial = degree >= 2 or a batch with >= 2 kinds of member; distinct by (bits, degree, kinds, mode, batch size, case)."
+               seeded non-aggregated members, None for all others and for every member in VerifyOnly. Non-trivial = degree >= 2 or a batch with >= 2 kinds of member; distinct by (bits, degree, kinds, mode, batch size, case)."
             .into(),
         assumptions: vec![],
         exhaustive: false,
